@@ -470,7 +470,9 @@ impl HashCtx {
                     }
                     total += len;
                     let off = if misalign { rng.below(32) as u8 } else { 0 };
-                    t.ops.push(Op::new(h as u8, k).len(len).off(off).seed(rng.data_seed()));
+                    // data value classes: mostly random, sometimes all-zero / all-ones (value-dependent fast paths)
+                    let dseed = match rng.below(16) { 0 => 0, 1 => 1, _ => rng.data_seed() };
+                    t.ops.push(Op::new(h as u8, k).len(len).off(off).seed(dseed));
                     fills[h] = Some(fill + len);
                     // fault placement bias: reset-class op right after a chunk that left the
                     // buffer one byte short of full / exactly full
